@@ -26,6 +26,9 @@ LABELS = {'resource_update': 1, 'enter_queue': 2, 'start_work_order': 3, 'finish
           'received_part': 6, 'produced_part': 7, 'device_failure': 8, 'level': 9, 'supplied_new_part': 10}
 
 
+LATE_BASE = 1000      # model keys of devices constructed while the simulation is in progress (coq/Model/FamFloor.v, op 108)
+
+
 class Discard(Exception):
     pass
 
@@ -68,7 +71,12 @@ def encode(sc):
             out += [106, inf_code(e['capacity']), e['value'], 0, 0, 0, 0, 0]
             nid += 1
             continue
-        nid += 1
+        late = e.get('late')
+        if late:
+            key = LATE_BASE + late
+        else:
+            nid += 1
+            key = nid
         if k == 'handler':
             p = [e['cycle']]
         elif k == 'processor':
@@ -85,16 +93,20 @@ def encode(sc):
             p = [e['decider'][0], e['decider'][1]]
         else:
             p = []
-        out += [100, KINDS[k]] + pad(p, 6)
-        if e.get('up'):
-            out += [101, nid] + pad(e['up'], 6)
+        if late:
+            # constructed later (ext op 'late'): declared under the reserved key, not connected, no id taken
+            out += [108, late, KINDS[k]] + pad(p, 5)
+        else:
+            out += [100, KINDS[k]] + pad(p, 6)
+            if e.get('up'):
+                out += [101, key] + pad(e['up'], 6)
         if e.get('req'):
-            out += [104, nid] + enc_req6(e['req'])
+            out += [104, key] + enc_req6(e['req'])
         if e.get('gen_pattern'):
-            out += [107, nid] + pad([z + 2 for z in e['gen_pattern']], 6)      # sizes: -1 empty batch, 0 single part, n a batch of n
+            out += [107, key] + pad([z + 2 for z in e['gen_pattern']], 6)      # sizes: -1 empty batch, 0 single part, n a batch of n
         for which in ('receive', 'finish', 'shutdown', 'restore'):
             for cb in e.get('on_' + which, []):
-                out += [105, nid, WHICH[which], CBOPS[cb[0]]] + pad(cb[1:], 4)
+                out += [105, key, WHICH[which], CBOPS[cb[0]]] + pad(cb[1:], 4)
     for n, a in sc['pools']:
         out += [20, n, a, 0, 0, 0, 0, 0]
     for k, ops in enumerate(sc['uops']):
@@ -112,6 +124,8 @@ def encode(sc):
         elif x[0] == 'now':
             o = x[1]
             out += [113, UOPS[o[0]]] + pad(o[1:], 6)
+        elif x[0] == 'late':
+            out += [114, x[1]] + pad(x[2:], 6)
     return out
 
 
@@ -158,6 +172,9 @@ def build(sc):
     W.cblog = []
     W.Batch = Batch
     W.Asset = Asset
+    W.alias = {}          # relative Python id of a late-constructed device -> its model key
+    W.key = lambda pid: W.alias.get(pid - W.base, pid - W.base)
+    W.late = {}
     env = W.env
 
     class Proc(PartProcessor):
@@ -194,7 +211,7 @@ def build(sc):
             return Batch(parts=parts)
 
     def nid(o):
-        return o.id - W.base
+        return W.key(o.id)
 
     def make_cb(dev_id, which, ops):
         def run(device, part, is_failure=False, lost=None):
@@ -224,24 +241,8 @@ def build(sc):
             return lambda device, is_failure, lost: run(device, device._part, is_failure, lost)
         return lambda device: run(device, device._part)
 
-    for e in sc['entities']:
+    def make(e, ups, key=None):
         k = e['kind']
-        ups = [W.objs[u] for u in e.get('up', [])]
-        if k == 'group':
-            g = Group('g%d' % e['gid'], [W.objs[d] for d in e['devices']])
-            W.groups[e['gid']] = g
-            W.objs[nid(g._input_device)] = g._input_device
-            W.objs[nid(g._output_device)] = g._output_device
-            continue
-        if k == 'path':
-            gp = W.groups[e['gid']].get_new_group_path(None, ups)
-            W.objs[nid(gp)] = gp
-            continue
-        if k == 'maint':
-            m = Maintainer(name='maint_%d' % (Asset._id_counter + 1 - W.base),
-                           capacity=float('inf') if e['capacity'] is None else e['capacity'] / TICK, value=e['value'] / TICK)
-            W.maints[nid(m)] = m
-            continue
         if k == 'pfc':
             o = PartFlowController(upstream=ups)
         elif k == 'gate':
@@ -274,12 +275,39 @@ def build(sc):
             o = PartBatcher(upstream=ups, output_batch_size=e['batch_size'])
         else:
             raise ValueError(k)
-        W.objs[nid(o)] = o
+        if key is not None:
+            W.alias[o.id - W.base] = key
         for which, adder in (('receive', 'add_receive_part_callback'), ('finish', 'add_finish_processing_callback'),
                              ('shutdown', 'add_shutdown_callback'), ('restore', 'add_restored_callback')):
             ops = e.get('on_' + which)
             if ops:
                 getattr(o, adder)(make_cb(nid(o), which, ops))
+        return o
+    W.make = make
+
+    for e in sc['entities']:
+        k = e['kind']
+        ups = [] if e.get('late') else [W.objs[u] for u in e.get('up', [])]
+        if k == 'group':
+            g = Group('g%d' % e['gid'], [W.objs[d] for d in e['devices']])
+            W.groups[e['gid']] = g
+            W.objs[nid(g._input_device)] = g._input_device
+            W.objs[nid(g._output_device)] = g._output_device
+            continue
+        if k == 'path':
+            gp = W.groups[e['gid']].get_new_group_path(None, ups)
+            W.objs[nid(gp)] = gp
+            continue
+        if k == 'maint':
+            m = Maintainer(name='maint_%d' % (Asset._id_counter + 1 - W.base),
+                           capacity=float('inf') if e['capacity'] is None else e['capacity'] / TICK, value=e['value'] / TICK)
+            W.maints[nid(m)] = m
+            continue
+        if e.get('late'):
+            W.late[LATE_BASE + e['late']] = e
+            continue
+        o = make(e, ups)
+        W.objs[nid(o)] = o
     for n, a in sc['pools']:
         W.rm.add_resources('r%d' % n, a / TICK)
     return W
@@ -337,10 +365,10 @@ def enc_opt(x):
 
 
 def enc_part(W, p):
-    h = [d.id - W.base for d in p._routing_history]
-    g = [d.id - W.base for d in p._group_pathing]
+    h = [W.key(d.id) for d in p._routing_history]
+    g = [W.key(d.id) for d in p._group_pathing]
     q = p.quality
-    return [p.id - W.base, to_ticks(p.value) if not isinstance(p, W.Batch) else 0, to_ticks(q), len(h)] + h + [len(g)] + g
+    return [W.key(p.id), to_ticks(p.value) if not isinstance(p, W.Batch) else 0, to_ticks(q), len(h)] + h + [len(g)] + g
 
 
 def enc_item(W, it):
@@ -386,15 +414,15 @@ def enc_dev(W, i, o):
         out += [-1, 0, 0, o._received_parts_count, to_ticks(o._value_of_received_parts)]
     else:
         out += [-1, 0, 0, 0, 0]
-    col = [p.id - W.base for p in o.collected_parts] if k == 6 else []
+    col = [W.key(p.id) for p in o.collected_parts] if k == 6 else []
     out += [len(col)] + col
     out += enc_oitem(W, o._in_progress_batch) if k == 7 else [0]
     vh = o._value_history
     out += [to_ticks(o._value), len(vh)]
     for label, t, dl, v in vh:
         out += [{'collected_part': 1, 'supplied_part': 2}.get(label, 9), to_ticks(t), to_ticks(dl), to_ticks(v)]
-    ups = [u.id - W.base for u in o._upstream]
-    dws = [u.id - W.base for u in o._downstream]
+    ups = [W.key(u.id) for u in o._upstream]
+    dws = [W.key(u.id) for u in o._downstream]
     out += [len(ups)] + ups + [len(dws)] + dws
     return out
 
@@ -411,7 +439,7 @@ def act_code(W, ev):
             return [7, a.keywords['request']._verif_id]
     nm = getattr(a, '__name__', '')
     owner = getattr(a, '__self__', None)
-    oid = owner.id - W.base if owner is not None and hasattr(owner, 'id') else 0
+    oid = W.key(owner.id) if owner is not None and hasattr(owner, 'id') else 0
     if nm == '_finish_cycle':
         return [1, oid]
     if nm == '_pass_part_downstream':
@@ -428,7 +456,7 @@ def act_code(W, ev):
 
 
 def enc_event(W, ev):
-    aid = ev.asset_id - W.base if ev.asset_id > 0 else ev.asset_id
+    aid = W.key(ev.asset_id) if ev.asset_id > 0 else ev.asset_id
     if getattr(W, 'reduced', False):
         # comparisons between differently split runs: event numbers and weights are not comparable, the rest is
         return [to_ticks(ev.time), to_ticks(ev.event_type, PRIO), aid] + act_code(W, ev) + [1 if ev.cancelled else 0]
@@ -455,7 +483,7 @@ def snapshot(W, st, new_data):
     out.append(len(rm._waiting_requests))
     for r, cb in rm._waiting_requests:
         rl = req_list(r)
-        out += [cb.__self__.id - W.base, len(rl)] + [v for na in rl for v in na]
+        out += [W.key(cb.__self__.id), len(rl)] + [v for na in rl for v in na]
     out.append(len(W.res_objs))
     for ro in W.res_objs:
         rl = req_list(ro._reserved_resources)
@@ -465,10 +493,10 @@ def snapshot(W, st, new_data):
         m = W.maints[mid]
         out += [mid, to_ticks(m._utilization), to_ticks(m.value), len(m._request_queue)]
         for wo in m._request_queue:
-            out += [wo._verif_id, wo.target.id - W.base, -1 if wo.tag is None else wo.tag, to_ticks(wo.needed_capacity)]
+            out += [wo._verif_id, W.key(wo.target.id), -1 if wo.tag is None else wo.tag, to_ticks(wo.needed_capacity)]
         out.append(len(m._active_requests))
         for wo in m._active_requests:
-            out += [wo._verif_id, wo.target.id - W.base, -1 if wo.tag is None else wo.tag, to_ticks(wo.needed_capacity)]
+            out += [wo._verif_id, W.key(wo.target.id), -1 if wo.tag is None else wo.tag, to_ticks(wo.needed_capacity)]
     out.append(len(W.cblog))
     for c in W.cblog:
         out += [len(c)] + c
@@ -490,13 +518,13 @@ def enc_data(W, label, sub, dp):
         return [1, int(sub[1:]), 3] + [to_ticks(v) for v in dp]
     sid = W.names[sub]
     if lab in (6, 7):
-        return [lab, sid, 4, to_ticks(dp[0]), dp[1] - W.base, to_ticks(dp[2]), to_ticks(dp[3])]
+        return [lab, sid, 4, to_ticks(dp[0]), W.key(dp[1]), to_ticks(dp[2]), to_ticks(dp[3])]
     if lab == 8:
-        return [lab, sid, 2, to_ticks(dp[0]), -1 if dp[1] is None else dp[1] - W.base]
+        return [lab, sid, 2, to_ticks(dp[0]), -1 if dp[1] is None else W.key(dp[1])]
     if lab == 9:
         return [lab, sid, 2, to_ticks(dp[0]), dp[1]]
     if lab == 10:
-        return [lab, sid, 2, to_ticks(dp[0]), dp[1] - W.base]
+        return [lab, sid, 2, to_ticks(dp[0]), W.key(dp[1])]
     # maintainer records: (now, target name, tag, info)
     return [lab, sid, 4, to_ticks(dp[0]), W.names[dp[1]], -1 if dp[2] is None else dp[2], -1 if dp[3] is None else dp[3]]
 
@@ -605,6 +633,12 @@ def run_impl(sc, weights='patch', split=False, reduced=False):
                         elif k == 'now':
                             W.uoplog.append(list(x[1]))
                             run_uop(W, x[1])
+                        elif k == 'late':
+                            # Device(upstream=[...]) constructed between two events of an initialised simulation
+                            e = W.late.pop(x[1])
+                            o = W.make(e, [W.objs[u] for u in x[2:] if u], key=x[1])
+                            W.objs[x[1]] = o
+                            W.names[o.name] = x[1]
                 except ValueError:
                     st = 1
                 except IndexError:
@@ -635,11 +669,11 @@ def item_info(W, it):
     if it is None:
         return None
     batch = isinstance(it, W.Batch)
-    leaves = [p.id - W.base for p in it.parts] if batch else [it.id - W.base]
-    return dict(id=it.id - W.base, leaves=leaves, batch=batch, q=to_ticks(it.quality),
+    leaves = [W.key(p.id) for p in it.parts] if batch else [W.key(it.id)]
+    return dict(id=W.key(it.id), leaves=leaves, batch=batch, q=to_ticks(it.quality),
                 v=sum(to_ticks(p.value) for p in it.parts) if batch else to_ticks(it.value),
-                hist=[d.id - W.base for d in it._routing_history], gpath=[d.id - W.base for d in it._group_pathing],
-                leaf_hists=[[d.id - W.base for d in p._routing_history] for p in (it.parts if batch else [it])])
+                hist=[W.key(d.id) for d in it._routing_history], gpath=[W.key(d.id) for d in it._group_pathing],
+                leaf_hists=[[W.key(d.id) for d in p._routing_history] for p in (it.parts if batch else [it])])
 
 
 def observe(W, x, st, devs, pools, new):
@@ -674,22 +708,22 @@ def observe(W, x, st, devs, pools, new):
         if k == 6:
             e['received'] = d._received_parts_count
             e['value'] = to_ticks(d.value)
-            e['collected'] = [p.id - W.base for p in d.collected_parts]
+            e['collected'] = [W.key(p.id) for p in d.collected_parts]
         if k == 7:
             e['inprog'] = item_info(W, d._in_progress_batch)
             e['batch_size'] = d._output_batch_size
-        e['up'] = [u.id - W.base for u in d._upstream]
-        e['down'] = [u.id - W.base for u in d._downstream]
+        e['up'] = [W.key(u.id) for u in d._upstream]
+        e['down'] = [W.key(u.id) for u in d._downstream]
         e['value_hist'] = [[to_ticks(t), to_ticks(dl), to_ticks(v)] for _, t, dl, v in d._value_history]
         e['dev_value'] = to_ticks(d._value)
         o['devices'][i] = e
     o['maints'] = {i: dict(util=to_ticks(m._utilization), value=to_ticks(m.value), queue=len(m._request_queue), accepted=getattr(m, '_verif_accepted', 0),
-                           active=[[wo.target.id - W.base, to_ticks(wo.needed_capacity)] for wo in m._active_requests],
+                           active=[[W.key(wo.target.id), to_ticks(wo.needed_capacity)] for wo in m._active_requests],
                            capacity=None if m._capacity == float('inf') else to_ticks(m._capacity))
                    for i, m in W.maints.items()}
-    o['queue'] = [[to_ticks(ev.time), ev.asset_id - W.base if ev.asset_id > 0 else ev.asset_id] + act_code(W, ev) + [bool(ev.cancelled)]
+    o['queue'] = [[to_ticks(ev.time), W.key(ev.asset_id) if ev.asset_id > 0 else ev.asset_id] + act_code(W, ev) + [bool(ev.cancelled)]
                   for ev in env._events]
-    o['paused'] = [[to_ticks(ev.time), ev.asset_id - W.base if ev.asset_id > 0 else ev.asset_id] + act_code(W, ev) for ev in env._paused_events]
+    o['paused'] = [[to_ticks(ev.time), W.key(ev.asset_id) if ev.asset_id > 0 else ev.asset_id] + act_code(W, ev) for ev in env._paused_events]
     tr = env._event_trace
     o['trace'] = dict(keys_ok=(list(tr.keys()) == list(range(len(tr)))), n=len(tr), popped=len(W.popped),
                       same=([(v['time'], v['asset_id']) for v in tr.values()] == list(W.popped)),
@@ -700,7 +734,7 @@ def observe(W, x, st, devs, pools, new):
     del W.fired[:]
     o['next_id'] = W.Asset._id_counter - W.base
     o['cblog'] = [list(c) for c in W.cblog]
-    o['waiting_res'] = [[cb.__self__.id - W.base, req_list(r)] for r, cb in W.rm._waiting_requests]
+    o['waiting_res'] = [[W.key(cb.__self__.id), req_list(r)] for r, cb in W.rm._waiting_requests]
     return o
 
 
